@@ -67,7 +67,9 @@ CLAIMED.update({
         "queue only grows at the back and the drain loop pops at the front; the outermost call returns the first "
         "processed event's result and never the __initial__ sentinel; a drain processes exactly the queued triggers "
         "in put order, each to completion before the next begins (FIFO), and every callback of a drain runs at the "
-        "depth of the drain however many events were queued (constant depth). " + ENG_TIE + "Compared: callback order "
+        "depth of the drain however many events were queued (constant depth); with rtc=False a send is the "
+        "processing of its own trigger, returns that trigger's result, and everything it runs to any nesting is "
+        "logged strictly deeper than the place it was issued from (depth first). " + ENG_TIE + "Compared: callback order "
         "across events, every nested and outer return value / exception, and the engine depth of every callback "
         "(rank of the Python stack depth), including self-triggering chains of length up to 300 (quick) / 1500 "
         "(thorough) at constant depth and rtc=False chains at increasing depth.",
@@ -161,21 +163,21 @@ CLAIMED["C10"] = (
     "full engine model); an unmapped value through the setter raises InvalidStateValue and stores nothing; a "
     "rejected operation stores nothing; at construction a stored value is kept, otherwise start_value (any "
     "non-None value) selects the start state, otherwise the initial state.  Tied to /repo by random machines "
-    "with values str / \"\" / int incl. 0 and negatives / tuples / default ids, model shapes none / plain / "
+    "with values str / \"\" / int incl. 0 and negatives / tuples / enum members / default ids, model shapes none / plain / "
     "property-backed / class-level default / falsy object / __len__==0, random state_field, start_value valid / "
     "invalid / falsy, a value already stored, and histories mixing events, validated writes and external writes; "
     "after each operation getattr(model, field), current_state, every is_active and `sm.model is model` are "
     "compared in coqc with the model.",
     "Coq proof (storage bijection, exactly-one-active, setter validation, start selection) + differential correspondence",
     "DESIGN.md 5 C10",
-    "Enum-member values and Django-style persistent models are not generated.  Two genuine defects repaired "
+    "Django-style persistent models are not generated (a property-backed field stands for them); enum members are.  Two genuine defects repaired "
     "(fix: 12d44f1 falsy model replaced, fix: 7e8e568 falsy start_value ignored).")
 
 CLAIMED["C13"] = (
     "Theorems (Properties/C13.v): every calling style (send by name, event attribute, item of events / "
     "allowed_events, trigger bound onto another object) is the same operation on the same trigger; "
-    "allowed_events lists each event once and exactly the events bound to a transition leaving the current "
-    "state; a name bound to no such transition - in particular any name that is not a declared event - yields "
+    "allowed_events lists each event once, exactly the events bound to a transition leaving the current "
+    "state, in the order of their first declaration; a name bound to no such transition - in particular any name that is not a declared event - yields "
     "TransitionNotAllowed(name, state) or nothing when tolerated, with the configuration unchanged (nothing else "
     "invoked).  " + ENG_TIE + "Here the events of each history go through a random mix of the five calling "
     "styles (results, exceptions, state, allowed_events, callbacks compared), and an attribute probe passes "
@@ -207,8 +209,9 @@ CLAIMED["C05"] = (
     "the async engine differs are characterised: for guards that are pure and independent of how often they are "
     "asked the sync executor (stop at first failure) and the async executor (all guards started and awaited) "
     "compute the same conjunction; a group returns only when every admitted callback has completed; the async "
-    "constructor defers activation by leaving exactly the __initial__ trigger at the head of the queue; the "
-    "loop ends idle on every path.  That the real AsyncEngine follows this model is decided by the twin "
+    "constructor defers activation by leaving exactly the __initial__ trigger at the head of the queue, and the "
+    "first event sent afterwards drains the activation first and the event second; the loop ends idle on "
+    "every path.  That the real AsyncEngine follows this model is decided by the twin "
     "correspondence: every base scenario is run as sync twin and with all / one / a random subset of its "
     "callbacks as coroutine functions (a third of their scripts really suspend), each under three drivers "
     "(plain calls without a loop, the whole history awaited in a running loop, one OS thread per operation), "
@@ -227,7 +230,9 @@ CLAIMED["C12"] = (
     "resolution round that has the attribute, machine, model, constructor and late listeners alike; a guard name "
     "provided by several objects is one entry over all of them whose value is truthy iff truthy on all; resolving "
     "the same listeners again - immediately or after any number of other attachments - leaves every executor "
-    "unchanged (no duplicated call).  " + ENG_TIE + "Here every callback / guard / validator name (user and "
+    "unchanged (no duplicated call); in a process of several machine objects driven in any interleaving the "
+    "observations of one object are those it gives when driven alone (other instances' listeners are never "
+    "invoked).  " + ENG_TIE + "Here every callback / guard / validator name (user and "
     "convention names) is spread at random over machine, model, constructor listeners and listeners attached "
     "later with add_listener at random points of the history, repeatedly and several at a time; per-provider "
     "callback logs with their arguments and the firing of guarded transitions are compared.  Isolation pairs: two "
@@ -241,7 +246,8 @@ CLAIMED["C17"] = (
     "original's configuration (state, call history, empty queue, free lock), rtc on or off; a machine with async "
     "callbacks cloned before its activation keeps exactly one pending __initial__ trigger; the clone's registry "
     "is the original's; hence after any history the clone answers every suffix of operations exactly as the "
-    "original.  " + ENG_TIE + "Here a history is run, the machine is cloned with copy.deepcopy or a pickle round "
+    "original; original and clone being two objects of the process, driving one never changes what the other "
+    "does.  " + ENG_TIE + "Here a history is run, the machine is cloned with copy.deepcopy or a pickle round "
     "trip - also copies of copies mixing both mechanisms - at a random point (also before any event, i.e. before "
     "activation of an async machine; also after listeners were attached with one multi-argument add_listener), and original "
     "and clone are driven alternately with different suffixes: the original's trace is compared with the model of "
@@ -254,8 +260,10 @@ CLAIMED["C17"] = (
     "proved.  Two genuine defects repaired (fix: b431cc9, fix: b1b38e6).")
 
 CLAIMED["C16"] = (
-    "Theorems (Properties/C16.v): the model of a machine takes only its own declaration, providers, behaviour "
-    "and configuration (every theorem of the other properties is about one machine); the one process-wide object "
+    "Theorems (Properties/C16.v): in a process of several machine objects (instances of one or of different "
+    "classes, each with its own declaration, providers, behaviour and configuration) driven in ANY interleaving, "
+    "what one object returns, raises, stores, logs and ends as is what it does when it alone is given its own "
+    "operations, so the other objects, their operations and the interleaving do not matter; the one process-wide object "
     "the library shares, the signature cache, is proved transparent - every callable is bound with its own "
     "adapter after any number and order of other bindings - whenever the cache key separates callables with "
     "different adapters, and refuted for the pinned key (same qualified name and variable names, different "
@@ -275,7 +283,10 @@ CLAIMED["C06"] = (
     "granularity: the callback blocks of different events never overlap (the log is a sequence of complete "
     "Begin/End blocks plus at most one open block); per sender, what was begun, what is queued and what is "
     "still to be sent is exactly its plan in its order (nothing lost, invented, reordered; nothing begun "
-    "twice); once all senders have returned the queue is empty and every event has been processed.  Tied to "
+    "twice); once all senders have returned the queue is empty and every event has been processed; with callbacks "
+    "that themselves send events (any family of nested sends): blocks never overlap, what was begun followed by "
+    "what is queued is exactly what was put in put order (global FIFO), nothing is begun twice, and once all "
+    "senders have returned everything put has been processed.  Tied to "
     "/repo by a deterministic scheduler built on sys.settrace that parks every sender thread before every source "
     "line of engines/*.py and event.py and runs one line of one thread at a time following a schedule: every "
     "preemption point of sender 0 crossed with 8 preemption lengths of sender 1 (2 senders), plus random "
@@ -284,7 +295,8 @@ CLAIMED["C06"] = (
     "the Coq model, which must yield the same pop order and popping thread, the same leftover queue and the same "
     "returned senders; the real begin/end markers must not overlap.  asyncio: 2-4 sender tasks whose callbacks "
     "(and a nested send) await gates opened one at a time in schedule order; exactly-once, sender order, no "
-    "overlap and empty queue are checked on what happened.",
+    "overlap, empty queue and global FIFO (begin order = put order observed on the engine object, nested send "
+    "included) are checked on what happened.",
     "Coq proof (protocol invariants by induction over schedules, all senders / plans / schedules) + schedule-controlled differential correspondence (sys.settrace scheduler)",
     "DESIGN.md 5 C06",
     "Partial: the theorem is about the protocol at source-line granularity; preemption inside one source line "
